@@ -77,18 +77,20 @@ def gen_lines(rng, proj, inf, n):
 
 
 # ------------------------------------------------------------------ the oracle: the property sentence
-def oracle(proj, line, conv):
+def oracle(proj, line, conv, low=None):
     """-> (calls, end) where calls = [(def, [(gotype, printed)])], end in
     'done' | 'listed' | 'failed' | ('exit2', 'unknown'|'missing'|'bad:<type>')"""
     names = {}
     bydef = {}
+    if low is None:
+        low = str.lower
     for p in proj["pkgs"]:
         for d in p["decls"]:
             nm = ":".join(x for x in (p["alias"], d["recv"], d["name"]) if x)      # target, ns:target, alias:target, alias:ns:target
-            names[nm.lower()] = d
+            names[low(nm)] = d
             bydef[d["def"]] = d
     for a, defid in proj["aliases"]:
-        names[a.lower()] = bydef[defid]
+        names[low(a)] = bydef[defid]
     failing = set(int(k) for k in line["fail"])
     words = line["words"]
     if not words:
@@ -102,7 +104,7 @@ def oracle(proj, line, conv):
     calls = []
     pos = 0
     while pos < len(words):                       # strictly left to right, once per mention
-        d = names.get(words[pos].lower())         # matched case-insensitively
+        d = names.get(low(words[pos]))            # matched case-insensitively: strings.ToLower on both sides
         if d is None:
             return calls, ("exit2", "unknown")
         argw = words[pos + 1: pos + 1 + len(d["params"])]
@@ -344,13 +346,29 @@ def run(ctx):
     unit = go_build_harness(ctx, "unitrun")
     nproj = 32 if ctx.quick else 500
     nlines = 24
+
+    def go_conv(keys):
+        req = json.dumps({"op": "conv", "raw": [{"ty": ty, "w": base64.b64encode(w.encode("utf-8", "surrogateescape")).decode()} for ty, w in keys]}) + "\n"
+        rc, out, err = sh([unit], input=req.encode(), timeout=300)
+        if rc != 0:
+            raise BuildError("unitrun conv failed: " + err[-2000:])
+        ans = json.loads(out.splitlines()[0])
+        if isinstance(ans, dict):
+            raise BuildError("unitrun conv: %s" % ans)
+        return {k: (a["printed"] if a["ok"] else None) for k, a in zip(keys, ans)}
+
+    # Go's own upper/lower-casing of the non-ASCII letters of the identifier pools (steers how names are typed)
+    chars = c04gen.nonascii_chars()
+    cc = go_conv([("toupper", c) for c in chars] + [("tolower", c) for c in chars])
+    c04gen.GO_CASE.update({c: (cc[("toupper", c)], cc[("tolower", c)]) for c in chars})
     work = []
     if ctx.replay and ctx.replay.get("case"):
         c = ctx.replay["case"]
         work.append((c["proj"], [c["line"]]))
     else:
         for k in range(nproj):
-            proj = c04gen.gen_project(rng, "p%04d" % k)
+            # every fourth package has identifiers / alias names with non-ASCII letters
+            proj = c04gen.gen_project(rng, "p%04d" % k, nonascii=(k % 4 == 1))
             if k % 4 == 3:
                 # a short HISTORY: the package is built and run once, then ONE of its several magefiles is edited
                 # (new target / changed parameter list / renamed target); the lines are run against the edited
@@ -372,15 +390,19 @@ def run(ctx):
                 for ty in ("int", "bool", "time.Duration"):
                     keys.add((ty, w))
             keys.add(("bool", ln["ignore"] or ""))
+    # strings.ToLower of every word and every name, as Go computes it (the oracle matches names with it)
+    for (proj, lines), inf in zip(work, infos):
+        for ln in lines:
+            for w in ln["words"]:
+                keys.add(("tolower", w))
+        for t in c04gen.all_targets(inf):
+            keys.add(("tolower", t["tname"]))
+        for a_, _ in inf["aliases"]:
+            keys.add(("tolower", a_))
     keys = sorted(keys)
-    req = json.dumps({"op": "conv", "raw": [{"ty": ty, "w": base64.b64encode(w.encode("utf-8", "surrogateescape")).decode()} for ty, w in keys]}) + "\n"
-    rc, out, err = sh([unit], input=req.encode(), timeout=300)
-    if rc != 0:
-        raise BuildError("unitrun conv failed: " + err[-2000:])
-    ans = json.loads(out.splitlines()[0])
-    if isinstance(ans, dict):
-        raise BuildError("unitrun conv: %s" % ans)
-    conv = {k: (a["printed"] if a["ok"] else None) for k, a in zip(keys, ans)}
+    conv = go_conv(keys)
+    golower = lambda w: conv[("tolower", w)]
+    ascii_lower = lambda w: "".join(c.lower() if c.isascii() else c for c in w)
     ctx.log("projects %d, command lines %d, conversions %d" % (len(work), sum(len(l) for _, l in work), len(keys)))
 
     results = pmap(lambda pl: run_project(mage, ctx, pl[0], pl[1]), work)
@@ -392,7 +414,7 @@ def run(ctx):
     nviol = 0
     dist = {"ends": {}, "words_per_line": {}, "name_kinds": {"plain": 0, "ns": 0, "import": 0, "import-ns": 0, "alias": 0},
             "param_types": {}, "arity": {}, "modes": {}, "binary_started_as": {}, "fail_lines": 0, "no_words": 0, "projects_with_imports": 0, "projects_with_aliases": 0,
-            "projects_with_default": 0, "projects_with_several_magefiles": 0, "history_edits": {}}
+            "projects_with_default": 0, "projects_with_several_magefiles": 0, "history_edits": {}, "oracle_only_non_ascii": 0, "projects_non_ascii_names": 0}
     for pi, ((proj, lines), inf, res) in enumerate(zip(work, infos, results)):
         if "build_error" in res:
             # the generator only emits packages in the documented form: mage must build them
@@ -412,10 +434,13 @@ def run(ctx):
                 for ty in d["params"]:
                     dist["param_types"][ty] = dist["param_types"].get(ty, 0) + 1
         ntargets = sum(len(p["decls"]) for p in proj["pkgs"])
-        lowered = sorted(t["tname"].lower() for t in c04gen.all_targets(inf))
+        allnames = [t["tname"] for t in c04gen.all_targets(inf)] + [a_ for a_, _ in inf["aliases"]]
+        modelled = all(golower(n) == ascii_lower(n) for n in allnames)
+        dist["projects_non_ascii_names"] += not modelled
+        lowered = sorted(golower(t["tname"]) for t in c04gen.all_targets(inf))
         for ln, (o1, o2, o3, tail) in zip(lines, res["runs"]):
             case = {"proj": proj, "line": ln}
-            want_calls, want_end = oracle(proj, ln, conv)
+            want_calls, want_end = oracle(proj, ln, conv, golower)
             got_calls = [(int(c[0][1:]), [tuple(a) for a in c[1]]) for c in o1["calls"]]
             got_end = classify(o1, set("d%s" % k_ for k_ in ln["fail"]))
             clause = None
@@ -425,7 +450,7 @@ def run(ctx):
                 clause = "bodies run %s, the property sentence says %s" % (got_calls, want_calls)
             elif got_end != want_end:
                 clause = "run ended %s (rc=%d, stderr class %s), the property sentence says %s" % (got_end, o1["rc"], o1["stderr"], want_end)
-            elif want_end == "listed" and sorted(x.lower() for x in o1["listed"]) != lowered:
+            elif want_end == "listed" and sorted(c04gen.go_lower(x) for x in o1["listed"]) != lowered:
                 clause = "listing shows %s, the targets are %s" % (o1["listed"], lowered)
             if clause:
                 nviol += 1
@@ -450,9 +475,14 @@ def run(ctx):
                 converted = any(ty != "string" for _, vs in want_calls for ty, _ in vs)
                 if len(want_calls) >= 2 or converted or (want_calls and want_end not in ("done", "listed")):
                     nontriv += 1
-            items.append(case_term("inf_%d" % pi, ln, conv, types, o1, got_end))
-            index.append(case)
-            item_proj.append(pi)
+            # the Coq model's [lower] is ASCII lower-casing: it is evaluated on the cases where that IS
+            # strings.ToLower for every name of the package and every word of the line; the oracle judges all
+            if modelled and all(golower(w) == ascii_lower(w) for w in ln["words"]):
+                items.append(case_term("inf_%d" % pi, ln, conv, types, o1, got_end))
+                index.append(case)
+                item_proj.append(pi)
+            else:
+                dist["oracle_only_non_ascii"] += 1
         # which kinds of names were used on the command lines of this project
         al = {a.lower() for a, _ in proj["aliases"]}
         kinds = {}
@@ -485,7 +515,8 @@ def run(ctx):
             ctx.violation({"kind": "model-vs-implementation", "correspondence": "Run/eval_C04.mismatches", "model_says": body[:400]},
                           case=index[idx], found_input=False)
     cov = ctx.coverage
-    cov["evaluations"] = len(items)
+    cov["evaluations"] = sum(len(res["runs"]) for res in results if "runs" in res)     # every case is judged by the oracle
+    cov["model_evaluated"] = len(items)                                                 # ... and these also by the Coq model (ASCII names)
     cov["distinct_nontrivial"] = nontriv
     cov["rule"] = ("generated collision-free packages (1-6 local targets, 0-2 mage:import'ed packages with/without alias, namespaces, 0-3 aliases, "
                    "default with/without parameters or none) x command lines (1-6 mentions, random letter case, too few / too many words, "
